@@ -69,7 +69,7 @@ For EACH property below: %(per)d change(s).  For change number N of property CXX
    result: `go test -vet=off -count=1 ./... 2>&1 | grep -E '^(ok|FAIL|---|panic)'` must equal /tmp/seed-base/baseline.txt
    apart from timings and pointer values (offline, the root package and ./compress die with a panic about
    "Broker Not Available" in the baseline too; that is expected).  Because of that panic also run, for root-package changes,
-   the tests that can run offline by name, e.g. `go test -vet=off -count=1 -run 'TestBatchQueue|TestWriter|TestMessage|TestBalancer|TestHash|TestCRC32|TestMurmur2|TestRoundRobin|TestLeastBytes|TestReadVar|TestRead|TestWrite|TestProtocol|TestError|TestDial|TestGroupBalancer|TestRange|TestRack|TestFindMembers' .`
+   the tests that can run offline by name, e.g. `go test -vet=off -count=1 -run 'TestBatchQueue|TestMessage|TestHash|TestCRC32|TestMurmur2|TestRoundRobin|TestLeastBytes|TestReadVar|TestProtocol|TestError|TestGroupBalancer|TestRange|TestRack|TestFindMembers|TestConsumerGroupErrors|TestGeneration|TestOffsetStash|TestMessageSetReader' .`
    with and without the change and compare.
 3. It must need something SPECIFIC to manifest: a particular interleaving, a fault or crash at a particular point, a multi-step
    sequence of operations, an unusual input or configuration value, an uncommon API entry point or option combination, or
